@@ -13,6 +13,8 @@ def parseEv (s : String) : Option SysEv :=
     | _, _ => none
   | ["lc"] => some .limitC
   | ["ls"] => some .limitS
+  | ["tc"] => some .lateC
+  | ["ts"] => some .lateS
   | ["dcs"] => some .deliverCS
   | ["dsc"] => some .deliverSC
   | _ => none
